@@ -1374,7 +1374,10 @@ func record(tr, out string, N, R int) {
 			defer h.clientDone()
 			var conn net.Conn
 			var err error
-			cl := &dns.Client{Timeout: time.Hour}
+			// The in-memory transports lose nothing, but a broken server may answer the wrong client or nobody: a
+			// client gives an exchange up after a while so that the recording ends.  Giving up is logged as "lost"
+			// and is never a verdict by itself; what went wrong is in the server-side events.
+			cl := &dns.Client{Timeout: 10 * time.Second}
 			switch tr {
 			case "udp":
 				conn, err = net.Dial("udp", addr)
@@ -1410,7 +1413,7 @@ func record(tr, out string, N, R int) {
 						lg.emit(xEvent{Ev: "lost", Tr: tr, C: c, Round: round, Try: try})
 						lost.Add(1)
 						if tr != "udp" {
-							hx.Die("%s: exchange of client %d failed: %v", tr, c, err)
+							break // lossless transport: sending again cannot help
 						}
 						continue
 					}
